@@ -167,6 +167,7 @@ func runFindings(args []string) int {
 					}
 				}
 			}
+			fmt.Printf("DONE %s\n", id)
 		}()
 	}
 	return 0
